@@ -108,7 +108,7 @@ Chunk1(e) == IF e.b < e.n THEN e.b ELSE e.n
 FadedAsked(m1, e, s) == Faded(m1, s) /\ e.asks[s] # <<>>
 Between(x, a, b) == (a - 1 <= x /\ x <= b + 1) \/ (b - 1 <= x /\ x <= a + 1)
 OutOK(m1, e, f) ==
-  \/ e.out[f] = Expected(m1, f - 1)
+  \/ e.out[f] = Expected(m1, f - 1) /\ ("fr" \in DOMAIN e => \A j \in 1..Len(e.fr) : e.fr[j] # f)
   \/ /\ f <= Chunk1(e)
      /\ \E s \in Snds : FadedAsked(m1, e, s)
      /\ Between(e.out[f], Expected(m1, f - 1), Expected(Run(m1), f - 1))
